@@ -6,6 +6,52 @@
 
 namespace vf { namespace c10 {
 void register_unit_families() { register_group_c(); }
-uint64_t random_cases(bool thorough) { return thorough ? 40000 : 1200; }
-std::vector<Extra>& extras() { static std::vector<Extra> x; return x; }
+uint64_t random_cases(bool thorough) { return thorough ? 100000 : 1500; }
+// ---------------------------------------------------------------- t-digest reference-implementation formats (big endian), synthesised
+// verbose ("asBytes"):      i32 1 | f64 min | f64 max | f64 compression | i32 numCentroids | (f64 weight, f64 mean)*
+// compact ("asSmallBytes"): i32 2 | f64 min | f64 max | f32 compression | i16 centroid capacity, i16 buffer capacity | i16 numCentroids |
+//                           (f32 weight, f32 mean)*
+template<typename T> static void legacy_tdigest_case(int form, int rep) {
+  Rng r(0x7D16 + 17 * form + rep);
+  const uint16_t k = rep % 2 ? 100 : 37;
+  const uint32_t nc = rep == 0 ? 1 : uint32_t(2 + r.below(60));
+  std::vector<double> means; std::vector<uint64_t> ws;
+  double m = -50.0;
+  for (uint32_t i = 0; i < nc; ++i) { m += 0.5 + double(r.below(64)) * 0.25; means.push_back(m); ws.push_back(i == 0 || i + 1 == nc ? 1 : 1 + r.below(40)); }
+  const double mn = means.front(), mx = means.back();
+  uint64_t total = 0; for (uint64_t x : ws) total += x;
+  Wr w;
+  if (form == 1) { w.u32be(1).f64be(mn).f64be(mx).f64be(double(k)).u32be(nc); for (uint32_t i = 0; i < nc; ++i) w.f64be(double(ws[i])).f64be(means[i]); }
+  else { w.u32be(2).f64be(mn).f64be(mx).f32be(float(k)).u16be(uint16_t(2 * k + 10)).u16be(uint16_t(5 * k)).u16be(uint16_t(nc)); for (uint32_t i = 0; i < nc; ++i) w.f32be(float(ws[i])).f32be(float(means[i])); }
+  for (int stream = 0; stream < 2; ++stream) {
+    const std::string P = stream ? "stream" : "bytes";
+    const std::string key = std::string("legacy|tdigest|reference-format-") + (form == 1 ? "verbose" : "compact") + "|" + (sizeof(T) == 8 ? "double" : "float") + "|" + P + "|";
+    try {
+      const tdigest<T> s = read_tdigest<T>(w.b, stream != 0);
+      VF_CHECK(s.get_k() == k, key + "k", "got " + std::to_string(s.get_k()));
+      VF_CHECK(s.get_total_weight() == total, key + "total-weight", "got " + std::to_string(s.get_total_weight()) + " want " + std::to_string(total));
+      VF_CHECK(s.get_min_value() == static_cast<T>(mn) && s.get_max_value() == static_cast<T>(mx), key + "min-max", "");
+      std::vector<T> gm; std::vector<uint64_t> gw;
+      for (const auto& c : s.centroids_) { gm.push_back(c.get_mean()); gw.push_back(c.get_weight()); }
+      std::vector<T> wm; for (double x : means) wm.push_back(static_cast<T>(x));
+      VF_CHECK(same_bits(gm, wm) && gw == ws, key + "centroids", "got " + std::to_string(gm.size()) + " want " + std::to_string(nc));
+      VF_CHECK(s.get_rank(static_cast<T>(mx + 1)) == 1.0 && s.get_rank(static_cast<T>(mn - 1)) == 0.0, key + "rank-outside-range", "");
+    } catch (const std::exception& e) { checked(); fail(key + "deserialize-threw", e.what()); }
+    count("legacy_tdigest_" + P);
+  }
+  sig(img_hash(w.b));
+}
+
+std::vector<Extra>& extras() {
+  static std::vector<Extra> x;
+  static bool init = false;
+  if (!init) {
+    init = true;
+    for (int form = 1; form <= 2; ++form) for (int rep = 0; rep < 5; ++rep) {
+      x.push_back(Extra{"legacy tdigest double", [form, rep]() { legacy_tdigest_case<double>(form, rep); }});
+      x.push_back(Extra{"legacy tdigest float", [form, rep]() { legacy_tdigest_case<float>(form, rep); }});
+    }
+  }
+  return x;
+}
 } }
